@@ -13,6 +13,7 @@ import random
 import re
 import shutil
 import subprocess
+import time
 from concurrent.futures import ThreadPoolExecutor
 
 from harness.core import (MachineryError, REPO, SPEC, VERIF, JOBS, model_check, read_events, require, run_driver, seed,
@@ -137,13 +138,19 @@ def gen_graph(wd):
              "cModules == {" + ", ".join(q(m) for m in sorted(bodies)) + "}",
              "cLazy == [t \\in cTheories |-> " + " ".join("IF t = %s THEN %s ELSE" % (q(t), q(m)) for t, m in sorted(lazy.items()) if m in bodies) + ' "none"]',
              "cBody == " + (" @@ ".join("(%s :> %s)" % (q(m), tla_seq(tla_seq([q(k), q(c)]) for k, c in bodies[m])) for m in sorted(bodies)) or "<<>>"),
+             "cItems0 == [t \\in cTheories |-> <<1>>]",
+             "cLimits == [t \\in cTheories |-> {0}]",
+             "gFixed == {{}}",
+             "gAsCoded == {{}, {\"staledeps\"}}",
+             "gVariants == {{}, {\"staledeps\"}, {\"staledeps\", \"norestore\"}, {\"staledeps\", \"tsfirst\"}}",
              "============================================================================="]
-    (SPEC / "gen").mkdir(exist_ok=True)
-    (SPEC / "gen" / "C12_Graph.tla").write_text("\n".join(lines) + "\n")
+    (wd / "gen").mkdir(exist_ok=True)
+    (wd / "gen" / "C12_Graph.tla").write_text("\n".join(lines) + "\n")
     return g, bodies, lazy
 
 
-def write_cfg(path, op_theories, op_modules, maxops, restore, tslast, fault=True, invariant=True):
+def write_cfg(path, op_theories, op_modules, maxops, fault=True):
+    """the loader model on the real import graph: no file operations; {} and the as-coded walk must have the property"""
     path.write_text("""SPECIFICATION Spec
 CONSTANTS
   Theories <- cTheories
@@ -153,27 +160,154 @@ CONSTANTS
   ModuleBody <- cBody
   OpTheories = {%s}
   OpModules = {%s}
+  Present0 <- cTheories
+  Items0 <- cItems0
+  LimitsOf <- cLimits
+  FileOps = {}
+  Variants <- gVariants
+  GoodVariants <- gAsCoded
   MaxOps = %d
-  RestoreThy = %s
-  TimestampLast = %s
+  MaxDepth = 300
   AllowFault = %s
   defaultInitValue = defaultInitValue
-%sCHECK_DEADLOCK FALSE
-""" % (", ".join(q(t) for t in op_theories), ", ".join(q(m) for m in op_modules), maxops, restore, tslast, "TRUE" if fault else "FALSE",
-       "INVARIANT Good\n" if invariant else ""))
+INVARIANT Good
+CHECK_DEADLOCK FALSE
+""" % (", ".join(q(t) for t in op_theories), ", ".join(q(m) for m in op_modules), maxops, "TRUE" if fault else "FALSE"))
 
 
-H_RE = re.compile(r'^<<"H", (<<.*>>), "(\w+)", "([^"]+)", "(\w+)", (TRUE|FALSE)>>$')
+def parse_tla(s, i=0):
+    """value printed by TLC (tuples, sets, strings, integers, booleans) -> python lists / str / int / bool"""
+    def ws(k):
+        while k < len(s) and s[k] in " \n\t\r":
+            k += 1
+        return k
+    i = ws(i)
+    for opn, cls in (("<<", ">>"), ("{", "}")):
+        if s.startswith(opn, i):
+            i += len(opn)
+            out = []
+            while True:
+                i = ws(i)
+                if s.startswith(cls, i):
+                    return out, i + len(cls)
+                v, i = parse_tla(s, i)
+                out.append(v)
+                i = ws(i)
+                if s[i] == ",":
+                    i += 1
+    if s[i] == '"':
+        j = s.index('"', i + 1)
+        return s[i + 1:j], j + 1
+    m = re.compile(r"-?\d+|TRUE|FALSE").match(s, i)
+    if not m:
+        raise MachineryError("cannot parse TLC value at: %r" % s[i:i + 80])
+    t = m.group(0)
+    return ((t == "TRUE") if t in ("TRUE", "FALSE") else int(t)), m.end()
 
 
 def parse_hist_lines(out):
+    """the history ends printed by the model: dicts var (deviations, '+'-joined; '' = none), hist, op = [kind, target, limit/position, imports],
+    exc, ok (did this operation end as the files say)"""
     res = []
-    for ln in out.splitlines():
-        m = H_RE.match(ln.strip())
-        if m:
-            hist = re.findall(r'<<"(\w+)", "([^"]+)">>', m.group(1))
-            res.append((hist, m.group(2), m.group(3), m.group(4), m.group(5) == "TRUE"))
+    for m in re.finditer(r'<<\s*"H",', out):
+        v, _ = parse_tla(out, m.start())
+        res.append({"var": "+".join(sorted(v[1])), "hist": v[2], "op": v[3], "exc": v[4], "ok": v[5]})
     return res
+
+
+def bad_by_variant(lines):
+    """per variant the histories whose last operation is a load that does not end as the files say"""
+    bad = {}
+    for h in lines:
+        if h["op"][0] == "load" and not h["ok"]:
+            bad.setdefault(h["var"], []).append(h)
+    return bad
+
+
+def specific(bad, var):
+    """bad histories of a variant that are not already bad without its last deviation (sorted: shortest first)"""
+    base = "+".join(sorted(set(var.split("+")) & {"staledeps"})) if var != "staledeps" else ""
+    known = {json.dumps([h["hist"], h["op"]]) for h in bad.get(base, [])} if base != var else set()
+    out = [h for h in bad.get(var, []) if json.dumps([h["hist"], h["op"]]) not in known]
+    return sorted(out, key=lambda h: (len(h["hist"]), json.dumps([h["hist"], h["op"]])))
+
+
+def pick_model(rnd, hs, n):
+    """n histories: the shortest ones first (ties broken by the seed)"""
+    hs = list(hs)
+    rnd.shuffle(hs)
+    hs.sort(key=lambda h: len(h["hist"]))
+    return hs[:n]
+
+
+def real_edit_history(h, lib, tq):
+    """history of the model scope `edit` (files P <- Q, Q = items 1 2 3) on the real theory tq and its last import: the three model
+    items are the first / a middle / the last theorem of tq, positions are translated through item identity"""
+    its = lib[tq]["items"]
+    thm = [it for it in its if it[0] in THM_KINDS and it[1] and [x for x in its if x == it] == [it]]
+    real = {1: thm[0], 2: thm[len(thm) // 2], 3: thm[-1]}
+    names = {"Q": tq, "P": lib[tq]["imports"][-1]}
+    cur = {"Q": [1, 2, 3], "P": [1]}
+    ops = []
+    for n, (kind, f, pos, _imps) in enumerate(h["hist"] + [h["op"]]):
+        t = names[f]
+        ident = lambda i: real[i] if i in real and f == "Q" else ["def.ax", "verif_c12m_%d" % i]
+        if kind == "load":
+            ops.append({"op": "load", "name": t, "limit": None if pos == 0 else ident(pos)})
+        elif kind == "ins":
+            o = {"op": "touch", "name": t, "const": "verif_c12m_%d" % (100 + n)}
+            if pos == 0:
+                o["at"] = 0
+            elif pos < len(cur[f]):
+                o["before"] = ident(cur[f][pos])
+            ops.append(o)
+            cur[f].insert(pos, 100 + n)
+        elif kind == "del":
+            if f == "P" and cur[f][pos] == 1:
+                return None
+            ops.append({"op": "touch", "name": t, "delete_item": ident(cur[f][pos])})
+            del cur[f][pos]
+        else:
+            return None
+    return ops
+
+
+def real_files_history(h, lib, m):
+    """history of the model scope `files` on real theories m = {P, X, W, B}; A is a new file, a copy of X"""
+    a = "zz_c12m_" + m["X"]
+    names = dict(m, A=a)
+    ops = []
+    for kind, f, _pos, imps in h["hist"] + [h["op"]]:
+        if kind == "load":
+            ops.append({"op": "load", "name": names[f]})
+        elif kind == "create":
+            ops.append({"op": "create", "name": a, "copy": m["X"]})
+        elif kind == "remove":
+            ops.append({"op": "remove", "name": names[f]})
+        elif kind == "reimport" and f == "B":
+            ops.append({"op": "reimport", "name": m["B"], "imports": [a if i == m["X"] else i for i in lib[m["B"]]["imports"]] if imps == ["A"]
+                        else list(lib[m["B"]]["imports"])})
+        elif kind == "reimport" and f == "X":
+            ops.append({"op": "reimport", "name": m["X"], "imports": lib[m["X"]]["imports"] + ([m["W"]] if "W" in imps else [])})
+        else:
+            return None
+    return ops
+
+
+def files_mappings(lib, sizes):
+    """real theories of the shape P <- X <- B, P <- W of the model scope `files` (W outside the closure of B)"""
+    out = []
+    for x in sorted(lib):
+        if len(lib[x]["imports"]) != 1:
+            continue
+        p = lib[x]["imports"][0]
+        for b in sorted(lib):
+            if lib[b]["imports"] != [x] or len(lib[b]["items"]) < 5:
+                continue
+            for w in sorted(lib):
+                if w != x and lib[w]["imports"] == [p] and w not in closure_of(lib, [b]) and lib[w]["items"]:
+                    out.append((load_cost(lib, sizes, [b, w]), {"P": p, "X": x, "W": w, "B": b}))
+    return sorted(out, key=lambda c: (c[0], sorted(c[1].items())))
 
 
 def script_of(hid, ops, lib=None):
@@ -184,6 +318,74 @@ def op_of(kind, target):
     if kind == "import":
         return {"op": "import", "module": target}
     return {"op": kind, "name": target}
+
+
+def closure_of(lib, names):
+    acc = []
+
+    def dfs(n):
+        if n in acc or n not in lib:
+            return
+        for i in lib[n]["imports"]:
+            dfs(i)
+        acc.append(n)
+    for n in names:
+        dfs(n)
+    return acc
+
+
+def load_cost(lib, sizes, names):
+    """estimate of the work of loading the theories `names` in one process: bytes of the files in the union of their closures"""
+    return sum(sizes.get(t, 0) for t in closure_of(lib, names))
+
+
+def names_in(ops):
+    out = []
+    for o in ops:
+        for k in ("name", "copy"):
+            if k in o:
+                out.append(o[k])
+        out += list(o.get("imports") or [])
+    return out
+
+
+def needed_files(lib, names, lazy, bodies):
+    """files a history over the theories `names` may read: their import closure; the whole library when the loader lazily imports a
+    module that loads theories for one of them"""
+    need = closure_of(lib, names)
+    if any(t in lazy and lazy[t] in bodies for t in need):
+        return sorted(lib)
+    return need
+
+
+def materialize(s, wd, lib, lazy, bodies):
+    """scratch copy of library/ for a history with file operations: the files the history may read (the loader reads the metadata
+    of every file of the directory; nothing under the repository is written)"""
+    if not s.get("scratch"):
+        return
+    d = wd / ("lib_" + s["hid"])
+    d.mkdir()
+    for t in needed_files(lib, [n for n in names_in(s["ops"]) if n in lib] + ["logic_base"], lazy, bodies):
+        shutil.copy2(REPO / "library" / (t + ".json"), d / (t + ".json"))
+    s["lib"] = str(d)
+
+
+def run_histories(scripts, wd, lib, lazy, bodies):
+    """every history in a fresh process of its own, the expensive ones first; returns the event lists in the order of `scripts`"""
+    def one(s):
+        materialize(s, wd, lib, lazy, bodies)
+        try:
+            return run_history(s, wd)
+        finally:
+            if s.get("scratch") and s.get("lib"):
+                shutil.rmtree(s["lib"], ignore_errors=True)
+    order = sorted(range(len(scripts)), key=lambda k: -scripts[k].get("cost", 0))
+    with ThreadPoolExecutor(max_workers=min(JOBS, 3)) as ex:
+        done = list(ex.map(lambda k: one(scripts[k]), order))
+    res = [None] * len(scripts)
+    for k, evs in zip(order, done):
+        res[k] = evs
+    return res
 
 
 def run_history(script, wd):
@@ -197,10 +399,167 @@ def run_history(script, wd):
     return evs
 
 
+def short_op(o):
+    """compact, stable description of an operation for event keys"""
+    k = o["op"]
+    if k == "import":
+        return [k, o["module"]]
+    r = [k, o.get("name", "")]
+    if k == "load" and o.get("limit") is not None:
+        r.append(o["limit"])
+    for f in ("const", "at", "before", "delete", "delete_item", "copy", "imports", "mtime_delta"):
+        if f in o and o[f] is not None:
+            r.append({f: o[f]})
+    return r
+
+
+def event_key(e):
+    hist = [short_op(json.loads(h[2])) for h in e["hist"]]
+    return "%s after %s" % (json.dumps([e["op"], e["name"], e["limit"]]), json.dumps(hist))
+
+
+def clean_stale_runs():
+    base = work_dir("C12")
+    for d in base.glob("run_*"):
+        try:
+            pid = int(d.name.split("_")[1])
+            os.kill(pid, 0)
+        except (ValueError, ProcessLookupError):
+            shutil.rmtree(d, ignore_errors=True)
+        except PermissionError:
+            pass
+
+
+THM_KINDS = ("thm", "thm.ax")
+
+
+def fam_siblings(lib, sizes, quick, rnd):
+    """(1) for every theory A with imports [.., X, .., Y, ..]: [load A; load Y] and [load Y; load A; load Y].
+    A pair is `fresh` when the import walk of A meets Y for the first time as a later sibling (Y is not below an earlier import) and Y
+    does not itself need everything the earlier imports need: the result of the walk of A and that of Y differ in more than a suffix.
+    quick: both histories for the fresh pairs up to a load cost, [load A; load Y] for two more (seeded) pairs; thorough: all."""
+    pairs, fresh = [], []
+    for a in sorted(lib):
+        imps = lib[a]["imports"]
+        for k in range(1, len(imps)):
+            y, before = imps[k], closure_of(lib, imps[:k])
+            p = (load_cost(lib, sizes, [a]), a, y)
+            pairs.append(p)
+            if y not in before and not set(before) <= set(closure_of(lib, [y])):
+                fresh.append(p)
+    pairs.sort()
+    fresh.sort()
+    out = []
+    if quick:
+        for cost, a, y in [p for p in fresh if p[0] <= 5_000_000] or fresh[:1]:
+            out.append(([{"op": "load", "name": a}, {"op": "load", "name": y}], cost))
+            out.append(([{"op": "load", "name": y}, {"op": "load", "name": a}, {"op": "load", "name": y}], cost))
+        rest = [p for p in pairs if p not in fresh and p[0] <= 5_000_000]
+        for cost, a, y in rnd.sample(rest, min(1, len(rest))) + rnd.sample([p for p in fresh if p[0] > 5_000_000], min(1, max(0, len(fresh) - 1))):
+            out.append(([{"op": "load", "name": a}, {"op": "load", "name": y}], cost))
+    else:
+        for cost, a, y in pairs:
+            out.append(([{"op": "load", "name": a}, {"op": "load", "name": y}], cost))
+            out.append(([{"op": "load", "name": y}, {"op": "load", "name": a}, {"op": "load", "name": y}], cost))
+    return out
+
+
+def fam_limits(lib, sizes, quick, rnd):
+    """(2b) [load T limit L; edit T in front of L / delete L; load T limit L] with L the first / a middle / the last item"""
+    cands = [t for t in sorted(lib) if load_cost(lib, sizes, [t]) <= 3_400_000
+             and sum(1 for it in lib[t]["items"] if it[0] in THM_KINDS and it[1]) >= 3]
+    if not cands:
+        return []
+    small = min(cands, key=lambda t: load_cost(lib, sizes, [t]))
+    chosen = [(small, "all")] if quick else [(t, "all") for t in cands]
+    out = []
+    n = 0
+    for t, which in chosen:
+        its = lib[t]["items"]
+        thm = [k for k, it in enumerate(its) if it[0] in THM_KINDS and it[1] and [x for x in its if x == it] == [it]]
+        named = [k for k, it in enumerate(its) if it[1] and [x for x in its if x == it] == [it]]
+        if len(thm) < 3 or not named:
+            continue
+        spots = {"mid": thm[len(thm) // 2]}
+        if which == "all":
+            spots.update({"first": named[0], "last": thm[-1]})
+            if not quick:
+                spots.update({"firstthm": thm[0], "lastitem": named[-1]})
+        cost = 2 * load_cost(lib, sizes, [t])
+        for tag, k in sorted(spots.items()):
+            L = its[k]
+            ld = {"op": "load", "name": t, "limit": L}
+            n += 1
+            c = "verif_c12_%d" % n
+            hs = [[ld, {"op": "touch", "name": t, "const": c, "before": L}, ld, {"op": "load", "name": t}]]
+            if k > 0:
+                hs.append([ld, {"op": "touch", "name": t, "const": c, "at": 0}, ld])
+            hs.append([{"op": "touch", "name": t, "const": c, "at": 0}, ld, {"op": "touch", "name": t, "delete": 0}, ld])
+            before = [j for j in thm if j < k]
+            if before:
+                hs.append([ld, {"op": "touch", "name": t, "delete_item": its[before[-1]]}, ld])
+            if k in thm:
+                hs.append([ld, {"op": "touch", "name": t, "delete_item": L}, ld, {"op": "load", "name": t}])
+            if quick and tag != "mid":          # quick: every shape at the middle item, one (seeded) shape at the first / last item
+                hs = [hs[0] if tag == "first" else rnd.choice(hs[1:])]
+            out += [(h, cost) for h in hs]
+    return out
+
+
+def fam_files(lib, sizes, quick, rnd):
+    """(2a) files created / removed between loads: a new theory A (alias of an existing file X) takes the place of X among the
+    imports of B; with and without an earlier failed load of A; after A was removed; a dependency of a loaded theory changes."""
+    triples = []
+    for b in sorted(lib):
+        for x in lib[b]["imports"]:
+            others = [i for i in lib[b]["imports"] if i != x]
+            if lib[x]["imports"] and x not in closure_of(lib, others) and len(lib[b]["items"]) >= 5:
+                triples.append((load_cost(lib, sizes, [b]), x, b))
+    triples.sort()
+    if not triples:
+        return []
+    chosen = [(triples[0], True)] if quick else [(t, True) for t in triples if t[0] <= 9_000_000]
+    out = []
+    for (cost, x, b), full in chosen:
+        a = "zz_c12_" + x
+        b2 = [a if i == x else i for i in lib[b]["imports"]]
+        mk = {"op": "create", "name": a, "copy": x}
+        re_b = {"op": "reimport", "name": b, "imports": b2}
+        la, lb = {"op": "load", "name": a}, {"op": "load", "name": b}
+        x0 = lib[x]["imports"][0]
+        out.append(([la, mk, re_b, lb, la], cost))
+        out.append(([{"op": "create", "name": a, "copy": x0}, la, {"op": "remove", "name": a}, la, mk, re_b, lb, la], cost))
+        out.append(([lb, {"op": "remove", "name": x}, lb, {"op": "load", "name": x}], cost))
+        if not quick:
+            out.append(([mk, re_b, lb, la], cost))
+            out.append(([lb, mk, re_b, lb], 2 * cost))
+    # a dependency U of a loaded theory T is given one more import W
+    deps = []
+    for t in sorted(lib):
+        for u in lib[t]["imports"]:
+            for w in sorted(lib):
+                if w not in closure_of(lib, [t]) and u not in closure_of(lib, [w]) and lib[w]["items"]:
+                    deps.append((load_cost(lib, sizes, [t, w]), t, u, w))
+    deps.sort()
+    pick = [rnd.choice(deps[:40])] if quick and deps else deps[:40]
+    for cost, t, u, w in pick:
+        lt = {"op": "load", "name": t}
+        out.append(([lt, {"op": "reimport", "name": u, "imports": lib[u]["imports"] + [w]}, lt, lt], cost))
+    return out
+
+
 def run(rep, tier):
     quick = tier == "quick"
     rnd = random.Random(seed())
-    wd = work_dir("C12", clean=True)
+    clean_stale_runs()
+    wd = work_dir("C12", "run_%d" % os.getpid(), clean=True)       # per-process scratch: concurrent runs do not collide
+    gd = wd / "gen"
+    gd.mkdir()
+    t_start = [time.time()]
+
+    def phase(name):
+        rep.notes.setdefault("phases_s", []).append([name, round(time.time() - t_start[0], 1)])
+        t_start[0] = time.time()
     rep.rule = ("Histories of loader operations (load with/without limit, module import, load with injected parse failure, file edit, "
                 "cyclic library), each executed in a fresh subprocess of the real code; sources: counterexample and sample histories of "
                 "the TLC model on the real import graph, plus seeded families. Non-trivial = a load event judged by the trace "
@@ -208,61 +567,114 @@ def run(rep, tier):
     rep.assumptions = ["canonical reference = fresh process with all side-effecting modules imported first; the name-level Expected set is "
                        "computed by TLC from the library files' import graph and per-item extension names",
                        "file edits are made on a scratch copy of library/ (path helpers redirected); nothing under /repo is written"]
-    # ---------------- design level: the loader model on the small diamond (all histories) and on the real graph
-    r = model_check("C12_LoaderMC", "C12_LoaderMC_fixed.cfg", wd=wd / "mc", workers=4)
-    rep.add_mc("C12_LoaderMC(fixed mechanism, 4-theory chain, all histories of <= 3 operations)", r, "MaxOps=3")
-    if r.violated:
-        rep.design_violation("C12_LoaderMC", r)
-        return
-    for variant in ("norestore", "tsfirst"):
-        rv = tlc("C12_LoaderMC", "C12_LoaderMC_%s.cfg" % variant, wd=wd / "mc", workers=4)
-        require("Good" in rv.violated, "C12 mutant model %s must violate Good" % variant)
-        rep.notes.setdefault("spec_mutants", []).append({"mutant": "loader_" + variant, "caught_by": ["Good"]})
+    # ---------------- design level: the loader model on small instances (all histories) and on the real import graph
+    # small scopes (one JVM at a time, in the background while the repository is traced): chain = loads / faults / module imports,
+    # edit = items inserted / deleted with limits, files = files created / removed / given other imports
+    small = {}
+
+    def small_runs():
+        for scope, cfg in (("fixed", "C12_LoaderMC_fixed.cfg"), ("chain", "C12_LoaderMC_ascoded.cfg"),
+                           ("edit", "C12_LoaderMC_edit.cfg" if quick else "C12_LoaderMC_edit4.cfg"),
+                           ("files", "C12_LoaderMC_files.cfg" if quick else "C12_LoaderMC_files5.cfg")):
+            small[scope] = tlc("C12_LoaderMC", cfg, wd=wd / "mc", workers=2)
+    bg = ThreadPoolExecutor(max_workers=1)
+    fut = bg.submit(small_runs)
     g, bodies, lazy = gen_graph(wd)
     lib = g["library"]
+    sizes = {t: os.path.getsize(REPO / "library" / (t + ".json")) for t in lib}
     rep.notes["graph"] = {"theories": len(lib), "modules_with_loads": {m: b for m, b in bodies.items()}, "lazy": lazy}
-    # theories reachable through module side effects / lazy imports are the interesting ones
+    fut.result()
+    bg.shutdown()
+    phase("small models + repository tracing")
+    model_hists = []          # (family, [operations])
+    for scope, what in (("fixed", "4-theory chain, mechanism with the property, all histories of <= 3 operations"),
+                        ("chain", "4-theory chain, 6 mechanisms, all histories of <= 2 operations"),
+                        ("edit", "P <- Q, item edits and limits, 4 mechanisms, all histories of <= %d operations" % (3 if quick else 4)),
+                        ("files", "P <- X <- B, P <- W, new file A: create / remove / reimport, 6 mechanisms, all histories of <= %d operations"
+                         % (4 if quick else 5))):
+        r = small[scope]
+        if r.error:
+            raise MachineryError("TLC failed on C12_LoaderMC (%s): %s\n%s" % (scope, r.error, r.out[-2000:]))
+        rep.add_mc("C12_LoaderMC(%s)" % what, r, scope)
+        if r.violated:
+            rep.design_violation("C12_LoaderMC_" + scope, r)
+            return
+    bads = {scope: bad_by_variant(parse_hist_lines(small[scope].out)) for scope in ("chain", "edit", "files")}
+    rep.notes["model_counterexample_histories"] = {scope: {v or "none": len(hs) for v, hs in sorted(b.items())} for scope, b in bads.items()}
+    # every deviation must be visible in some scope (the model distinguishes the mechanisms): specification mutants
+    for scope, var in (("chain", "norestore+staledeps"), ("chain", "tsfirst"), ("edit", "limitpos"), ("files", "stalemeta"),
+                       ("files", "staledeps"), ("files", "keepentry+staledeps")):
+        require(specific(bads[scope], var), "C12 model: deviation %s must violate Good in scope %s" % (var, scope))
+        rep.notes.setdefault("spec_mutants", []).append({"mutant": "loader_" + var, "scope": scope, "caught_by": ["Good"]})
+    # the discriminating histories of the scopes with file operations, on real theories
+    n_model = 2 if quick else 12
+    cands = sorted((t for t in lib if lib[t]["imports"] and load_cost(lib, sizes, [t]) <= 3_400_000
+                    and sum(1 for it in lib[t]["items"] if it[0] in THM_KINDS and it[1]) >= 3), key=lambda t: (load_cost(lib, sizes, [t]), t))
+    maps = files_mappings(lib, sizes)
+    seen_model = set()
+    for scope in ("edit", "files"):
+        # one group per deviation (with / without the as-coded walk): the same history is taken once
+        by_dev = {}
+        for var in sorted(bads[scope]):
+            dev = "+".join(d for d in var.split("+") if d != "staledeps") or "staledeps"
+            for h in specific(bads[scope], var):
+                k = json.dumps([h["hist"], h["op"]])
+                if k not in seen_model:
+                    seen_model.add(k)
+                    by_dev.setdefault(dev, []).append(h)
+        for dev in sorted(by_dev):
+            for h in pick_model(rnd, by_dev[dev], n_model):
+                if scope == "edit":
+                    ops = real_edit_history(h, lib, rnd.choice(cands[:8])) if cands else None
+                else:
+                    ops = real_files_history(h, lib, rnd.choice(maps[:6])[1]) if maps else None
+                if ops:
+                    model_hists.append(("model:%s:%s" % (scope, dev), ops))
+    # the real import graph: theories reachable through module side effects / lazy imports are the interesting ones
     hot = sorted({c for b in bodies.values() for k, c in b if k == "load"} | set(lazy))
     hot = [t for t in hot if t in lib]
     dependents = sorted(t for t in lib if any(h in lib[t]["imports"] for h in hot))
     op_th = sorted(set(hot[:4] + dependents[:2])) if quick else sorted(set(hot + dependents[:6]))
     op_mod = sorted(bodies)[:3] if quick else sorted(bodies)
-    cfgp = wd / "C12_Graph_fixed.cfg"
-    write_cfg(cfgp, op_th, op_mod, 2, "TRUE", "TRUE")
-    rg = model_check(str(SPEC / "gen" / "C12_Graph.tla"), str(cfgp), wd=wd / "mc", workers=4, timeout=3000)
-    rep.add_mc("C12_Graph(real import graph, fixed mechanism)", rg, "ops over %s + %s, MaxOps=2" % (op_th, op_mod))
+    cfgp = wd / "C12_Graph.cfg"
+    write_cfg(cfgp, op_th, op_mod, 2)
+    rg = model_check(str(gd / "C12_Graph.tla"), str(cfgp), wd=wd / "mc", workers=4, timeout=3000)
+    rep.add_mc("C12_Graph(real import graph; the mechanism with the property and the walk as coded have it; + norestore, tsfirst)", rg,
+               "ops over %s + %s, MaxOps=2" % (op_th, op_mod))
     if rg.violated:
         rep.design_violation("C12_Graph", rg)
         return
     rep.exhaustive = True
-    # histories on which the as-coded variants misbehave in the model: the discriminating ones
-    model_hists = []
-    for variant, (rs, ts) in (("norestore", ("FALSE", "TRUE")), ("tsfirst", ("TRUE", "FALSE"))):
-        cp = wd / ("C12_Graph_%s.cfg" % variant)
-        write_cfg(cp, op_th, op_mod, 2, rs, ts, invariant=False)      # no invariant: every history end is printed
-        rv = tlc(str(SPEC / "gen" / "C12_Graph.tla"), str(cp), wd=wd / "mc", workers=1, timeout=1200)
-        require(rv.rc == 0, "C12 variant model %s failed: %s" % (variant, rv.error))
-        bad = [h for h in parse_hist_lines(rv.out) if h[1] == "load" and (h[3] != "none" or not h[4])]
-        rep.notes.setdefault("model_counterexample_histories", {})[variant] = len(bad)
-        rnd.shuffle(bad)
-        model_hists += [(variant, h) for h in bad[:(3 if quick else 40)]]
-    good_lines = parse_hist_lines(rg.out)
+    glines = parse_hist_lines(rg.out)
+    gbad = bad_by_variant(glines)
+    rep.notes["model_counterexample_histories"]["graph"] = {v or "none": len(hs) for v, hs in sorted(gbad.items())}
+    for var in sorted(gbad):
+        hs = list(gbad[var])
+        rnd.shuffle(hs)
+        for h in hs[:(2 if quick else 40)]:
+            model_hists.append(("model:" + var, [op_of(k, t) for k, t, _l, _a in h["hist"] + [h["op"]]]))
+    good_lines = [h for h in glines if h["var"] == "staledeps" and h["op"][0] == "load"]
     rnd.shuffle(good_lines)
-    model_hists += [("sample", h) for h in good_lines[:(3 if quick else 60)]]
+    for h in good_lines[:(2 if quick else 60)]:
+        model_hists.append(("model:sample", [op_of(k, t) for k, t, _l, _a in h["hist"] + [h["op"]]]))
+    phase("model on the real graph")
     # ---------------- histories to execute
     scripts = []
     all_modules = sorted(bodies)
     canon_ths = sorted(set(op_th) | {"logic_base", "nat"})
     hid = 0
 
-    def add(ops, lib_=None, cyclic=False):
+    def add(ops, scratch=None, cost=None, fam="seeded"):
         nonlocal hid
         hid += 1
-        s = script_of("h%03d" % hid, ops, lib_)
-        s["cyclic"] = cyclic
+        s = script_of("h%03d" % hid, ops, None)
+        s["scratch"] = any(o["op"] in ("touch", "reimport", "create", "remove") for o in ops) if scratch is None else scratch
+        s["cost"] = cost if cost is not None else load_cost(lib, sizes, [o["name"] for o in ops if o.get("name") in lib]) + \
+            (15_000_000 if any(o["op"] == "import" for o in ops) else 0)
+        s["fam"] = fam
         scripts.append(s)
-    for variant, (hist, kind, target, exc, okf) in model_hists:
-        add([op_of(k, t) for k, t in hist] + [op_of(kind, target)])
+    for fam, ops in model_hists:
+        add(ops, fam=fam)
     seen_th = set()
     for s in scripts:
         for o in s["ops"]:
@@ -285,37 +697,28 @@ def run(rep, tier):
         deps = lib[th]["imports"]
         if deps:
             add([{"op": "fault", "name": deps[-1]}, {"op": "load", "name": th}])
-    # scratch copies of the library: edits and a cycle
-    scratch = wd / "lib_edit"
-    shutil.copytree(REPO / "library", scratch)
-    th = "nat"
-    add([{"op": "load", "name": th}, {"op": "touch", "name": th, "const": "verif_new_c1"}, {"op": "load", "name": th}], str(scratch))
-    scratch2 = wd / "lib_edit2"
-    shutil.copytree(REPO / "library", scratch2)
+    # edits of files between loads (scratch copies of the library)
+    add([{"op": "load", "name": "nat"}, {"op": "touch", "name": "nat", "const": "verif_new_c1"}, {"op": "load", "name": "nat"}])
     add([{"op": "load", "name": "int"}, {"op": "touch", "name": "nat", "const": "verif_new_c2"}, {"op": "load", "name": "int"},
-         {"op": "load", "name": "nat"}], str(scratch2))
-    scratch3 = wd / "lib_edit3"
-    shutil.copytree(REPO / "library", scratch3)
+         {"op": "load", "name": "nat"}])
     add([{"op": "load", "name": "nat"}, {"op": "touch", "name": "nat", "const": "verif_new_c3", "mtime_delta": -10},
-         {"op": "load", "name": "nat"}], str(scratch3))
+         {"op": "load", "name": "nat"}])
     # a file is given another import list after it (or its new import) was loaded: the metadata must follow the files
     if "expr" in lib and "set" in lib and "set" not in lib["expr"]["imports"]:
-        scratch4 = wd / "lib_edit4"
-        shutil.copytree(REPO / "library", scratch4)
         more = lib["expr"]["imports"] + ["set"]
-        add([{"op": "load", "name": "expr"}, {"op": "reimport", "name": "expr", "imports": more}, {"op": "load", "name": "expr"}], str(scratch4))
+        add([{"op": "load", "name": "expr"}, {"op": "reimport", "name": "expr", "imports": more}, {"op": "load", "name": "expr"}])
         if not quick:
-            scratch5 = wd / "lib_edit5"
-            shutil.copytree(REPO / "library", scratch5)
             add([{"op": "load", "name": "set"}, {"op": "reimport", "name": "expr", "imports": more}, {"op": "load", "name": "expr"},
-                 {"op": "load", "name": "set"}], str(scratch5))
-    cyc = wd / "lib_cycle"
-    shutil.copytree(REPO / "library", cyc)
-    d = json.load(open(cyc / "logic.json", encoding="utf-8"))
-    d["imports"] = d["imports"] + ["nat"]          # nat imports logic: logic -> nat -> logic
-    json.dump(d, open(cyc / "logic.json", "w", encoding="utf-8"))
-    add([{"op": "load", "name": "nat"}], str(cyc), cyclic=True)
-    add([{"op": "load", "name": "logic_base"}, {"op": "load", "name": "logic"}], str(cyc), cyclic=True)
+                 {"op": "load", "name": "set"}])
+    # an import cycle: nat imports logic; logic is given the import nat (before the first load / after a load)
+    cyc = {"op": "reimport", "name": "logic", "imports": lib["logic"]["imports"] + ["nat"]}
+    add([cyc, {"op": "load", "name": "nat"}])
+    add([cyc, {"op": "load", "name": "logic_base"}, {"op": "load", "name": "logic"}])
+    add([{"op": "load", "name": "nat"}, cyc, {"op": "load", "name": "nat"}, {"op": "load", "name": "logic"}])
+    # (1) sibling histories, (2) files created / removed, edits at a position with limits by item identity
+    for fam, gen in (("sibling", fam_siblings), ("files", fam_files), ("limits", fam_limits)):
+        for ops, cost in gen(lib, sizes, quick, rnd):
+            add(ops, cost=cost, fam=fam)
     if not quick:
         for _ in range(60):
             n = rnd.randint(2, 4)
@@ -329,18 +732,24 @@ def run(rep, tier):
                 else:
                     ops.append({"op": "fault", "name": pick(canon_ths)})
             ops.append({"op": "load", "name": pick(canon_ths)})
-            add(ops)
+            add(ops, fam="random")
     for s in scripts:
         for o in s["ops"]:
             if "name" in o and o["name"] in lib:
                 canon_ths = sorted(set(canon_ths) | {o["name"]})
+    rep.notes["families"] = {f: sum(1 for s in scripts if s["fam"] == f) for f in sorted({s["fam"] for s in scripts})}
     # ---------------- canonical process: all side-effecting modules first, then every theory of interest
     canon_ops = [{"op": "import", "module": m} for m in all_modules]
     canon_ops += [{"op": "load", "name": "logic_base", "limit": "start"}]
     for th in canon_ths:
         canon_ops.append({"op": "load", "name": th})
     canon_ops.append({"op": "items", "names": sorted(lib)})
-    cevs = run_history(script_of("canon", canon_ops), wd)
+    cs = script_of("canon", canon_ops)
+    cs.update({"scratch": False, "cost": 10 ** 9, "fam": "canon"})
+    phase("history generation")
+    # ---------------- execute the histories (a process each)
+    results = run_histories([cs] + scripts, wd, lib, lazy, bodies)
+    cevs, results = results[0], results[1:]
     canon = {}
     base = None
     items_tab = None
@@ -352,6 +761,7 @@ def run(rep, tier):
                 canon[e["name"]] = e["digest"]
         if e["op"] == "items":
             items_tab = e.get("items")
+    phase("histories executed")
     rep.notes["canonical"] = {"loaded_ok": sorted(canon), "failed": [[e.get("name", e.get("module")), e["outcome"], e.get("message", "")[:80]]
                                                                     for e in cevs if e["outcome"] != "ok"]}
     if items_tab is None or base is None:
@@ -366,41 +776,44 @@ def run(rep, tier):
                  "<<%s, %s, %s, %s>>" % (q(ty), q(nm), "TRUE" if ok else "FALSE", tla_seq("<<%d, %s>>" % (k, q(n)) for k, n in exts))
                  for ty, nm, ok, exts in items_tab[t])) for t in sorted(items_tab)) or "<<>>"),
              "============================================================================="]
-    (SPEC / "gen" / "C12_Items.tla").write_text("\n".join(lines) + "\n")
-    # ---------------- execute the histories (fresh subprocess each)
-    with ThreadPoolExecutor(max_workers=min(JOBS, 3)) as ex:
-        results = list(ex.map(lambda s: run_history(s, wd), scripts))
+    (gd / "C12_Items.tla").write_text("\n".join(lines) + "\n")
+    for fn in ("C12_LoaderTrace.tla", "C12_LoaderTrace.cfg"):
+        shutil.copy(SPEC / fn, gd / fn)
+    tspec = str(gd / "C12_LoaderTrace.tla")
     events = []
     tid = 0
     for s, evs in zip(scripts, results):
         for e in evs:
             tid += 1
             e["tid"] = tid
-            e["cyclic"] = bool(s.get("cyclic"))
+            e["fam"] = s["fam"]
             e.setdefault("name", "")
             e.setdefault("limit", ["none", "none"])
             e["canon"] = "none"
-            if e["op"] == "load" and not e["edits"] and not e.get("reimports") and not e["cyclic"] and e["limit"] == ["none", "none"]:
+            if e["op"] == "load" and not e["fs"] and e["limit"] == ["none", "none"]:
                 e["canon"] = canon.get(e["name"], "none")
-            e["key"] = "%s after %s" % (json.dumps([e["op"], e["name"], e["limit"]]), json.dumps(e["hist"]))
+            e["key"] = event_key(e)
             e.pop("items", None)
             events.append(e)
     # the canonical loads themselves are events too (judged by the name-level Expected)
     for e in cevs:
         if e["op"] == "load":
             tid += 1
-            e.update({"tid": tid, "cyclic": False, "canon": "none", "key": "canonical %s" % e["name"]})
+            e.update({"tid": tid, "fam": "canon", "canon": "none", "key": "canonical %s" % e["name"]})
             e.pop("items", None)
             events.append(e)
     evp = wd / "events.ndjson"
     write_events(evp, events)
-    v = validate_trace("C12_LoaderTrace", evp, wd=wd / "tv", nchunks=1)
+    v = validate_trace(tspec, evp, wd=wd / "tv", nchunks=1)
     rep.add_trace_result("histories", events, v, sample_n=2)
     rep.notes["histories_run"] = len(scripts) + 1
+    phase("trace validation")
+    nts = set(v["nontrivial"])
+    rep.notes["judged_by_family"] = {f: sum(1 for e in events if e["fam"] == f and e["tid"] in nts) for f in sorted({e["fam"] for e in events})}
     for s in rep.samples:
         if isinstance(s.get("event"), dict):
             s["event"].pop("installed", None)
-    # binding self-test: drop a theorem from the recorded projection / corrupt the digest
+    # binding self-tests: drop a theorem from the recorded projection; forget a recorded file operation
     bad = []
     for e in events:
         if e["op"] == "load" and e["outcome"] == "ok" and e["canon"] != "none" and len(bad) < 1:
@@ -408,9 +821,18 @@ def run(rep, tier):
             c["installed"] = [x for x in c["installed"] if x[0] != 2][:-1] + [x for x in c["installed"] if x[0] == 2][:-1]
             c["tid"] = 10 ** 6 + len(bad)
             bad.append(c)
+    for e in events:
+        if e["op"] == "load" and e["outcome"] == "ok" and e["tid"] in nts and any(x[0] == "ins" for x in e["fs"]) and len(bad) < 2 \
+                and e["limit"] == ["none", "none"]:
+            c = json.loads(json.dumps(e))
+            c["fs"] = [x for x in c["fs"] if x[0] != "ins"]
+            c["tid"] = 10 ** 6 + len(bad)
+            bad.append(c)
     if bad:
-        selftest_trace(rep, "C12_LoaderTrace", bad, "ReturnsExpected", wd=wd)
+        selftest_trace(rep, tspec, bad, "ReturnsExpected", wd=wd)
     require(rep.notes["traces"]["histories"]["nontrivial"] >= (15 if quick else 100), "C12: too few load events judged")
+    jf = rep.notes["judged_by_family"]
+    require(all(jf.get(f, 0) >= 3 for f in ("sibling", "files", "limits")), "C12: a history family is not judged: %s" % jf)
 
 
 def replay(path):
